@@ -342,6 +342,14 @@ def cmd_check(args):
 
     # second opinion before any alarm
     confirmed = []
+    seen_obl = set()
+    uniq = []
+    for (u, f) in violations:
+        if f["obligation"] in seen_obl:
+            continue
+        seen_obl.add(f["obligation"])
+        uniq.append((u, f))
+    violations = uniq
     for (u, f) in violations:
         stable, runs = second_opinion(u, f)
         f["second_opinion"] = runs
